@@ -13,17 +13,27 @@ def g_num(n: int) -> float:
     return float(n)
 
 
+class _Absent:
+    def __repr__(self):
+        return "<absent>"
+
+
+ABSENT = _Absent()
+
+
 def g_val(v: Dict[str, Any]) -> Any:
-    """Abstract context value record -> Python value (None for absent)."""
+    """Abstract context value record -> Python value (ABSENT for an absent key, None for a key holding None)."""
     t = v["t"]
     if t == "absent":
+        return ABSENT
+    if t == "null":
         return None
     if t == "n":
         return float(v["v"])
     if t == "l":
         return [float(x) for x in v["items"]]
     if t == "s":
-        base = float(v["v"]) if v["bt"] == "n" else [float(x) for x in v["items"]]
+        base = float(v["v"]) if v["bt"] == "n" else None if v["bt"] == "null" else [float(x) for x in v["items"]]
         return TEMPLATE_PREFIX * int(v["d"]) + str(base)
     raise ValueError(f"bad abstract value {v}")
 
@@ -32,7 +42,7 @@ def g_ctx(c: Dict[str, Any]) -> Dict[str, Any]:
     out = {}
     for k, v in c.items():
         pv = g_val(v)
-        if pv is not None:
+        if pv is not ABSENT:
             out[k] = pv
     return out
 
